@@ -203,6 +203,7 @@ func Main(ck *Check) {
 	workers := flag.Int("workers", 0, "number of worker processes (default NumCPU)")
 	repoHead := flag.String("repohead", "", "informational: repo HEAD")
 	only := flag.String("only", "", "run only domains whose name matches this regexp (debug)")
+	flag.BoolVar(&historyOnly, "history", false, "internal: replay by re-running the worker shard up to the case")
 	flag.Parse()
 	seed := int64(0)
 	if s := os.Getenv("VERIF_SEED"); s != "" {
@@ -328,6 +329,8 @@ func (ck *Check) runShard(tier string, seed int64, shard, of int, stopDomain str
 	return fails
 }
 
+var historyOnly bool
+
 func (ck *Check) doReplay(path string, seed int64) int {
 	b, err := os.ReadFile(path)
 	if err != nil {
@@ -353,7 +356,9 @@ func (ck *Check) doReplay(path string, seed int64) int {
 		st := newStats(d)
 		c := &Ctx{Tier: art.Tier, Seed: art.Seed, Replay: true, cur: st, fails: &fails, at: &at, curDom: d.Name}
 		fmt.Printf("replaying property=%s domain=%s index=%d tier=%s seed=%d\n", ck.Property, d.Name, art.Case.Index, art.Tier, art.Seed)
-		d.Run(c, art.Case.Index, art.Case.Index+1)
+		if !historyOnly {
+			d.Run(c, art.Case.Index, art.Case.Index+1)
+		}
 		for _, f := range fails {
 			if f.Key == art.Case.Key {
 				fmt.Printf("REPRODUCED key=%s\n", f.Key)
@@ -364,8 +369,21 @@ func (ck *Check) doReplay(path string, seed int64) int {
 			fmt.Printf("DIFFERENT-FAILURE keys=%v\n", failKeys(fails))
 			return 1
 		}
-		if art.Case.Of > 0 {
-			// history-dependent? re-run the worker shard that found it, up to and including the case
+		if art.Case.Of > 0 && !historyOnly {
+			// history-dependent? re-run the worker shard that found it in a FRESH process (this one already ran the case)
+			self, _ := os.Executable()
+			cmd := exec.Command(self, "-replay", path, "-history")
+			cmd.Stdout, cmd.Stderr = os.Stdout, os.Stderr
+			cmd.Env = os.Environ()
+			if err := cmd.Run(); err != nil {
+				if ee, ok := err.(*exec.ExitError); ok {
+					return ee.ExitCode()
+				}
+				return 2
+			}
+			return 0
+		}
+		if art.Case.Of > 0 && historyOnly {
 			fmt.Printf("case alone passes; re-running worker shard %d/%d up to the case (history-dependent failures)\n", art.Case.Shard, art.Case.Of)
 			fs := ck.runShard(art.Tier, art.Seed, art.Case.Shard, art.Case.Of, art.Case.Domain, art.Case.Index, nil, nil, nil)
 			for _, f := range fs {
